@@ -138,8 +138,8 @@ def run(C, R):
             # which never carries a value next to Pending - R1a)
             callers_ = [c for c, _ in CG.callers_of(fn['path']) if c != fn['path']]
             if callers_ and not fn.get('reachable') and not fn.get('impl_trait') and all(c in fn_paths for c in callers_) \
-                    and fn['path'] not in layer:
-                continue
+                    and (fn['path'] not in layer or all(c in layer for c in callers_)):
+                continue    # (inside the state layer: a helper that only other state functions call)
             paths = E.run(fn['path'])
             R.add_paths(fn['path'], len(paths))
             for path in paths:
@@ -149,6 +149,10 @@ def run(C, R):
                     ndrop += 1
                     v = e['val']
                     key = (e['fn'], e['ty']['str'], fmt_loc(e['loc']))
+                    # a closure / fn item whose captures the path knows and which captures nothing by value
+                    if v[0] == 'fn' or (v[0] == 'closure' and not any(_may_hold(c_) and c_[0] not in ('ref',)
+                                                                      for c_ in (v[2] or ()))):
+                        continue
                     if all_none(E, path, v):
                         if key not in seen:
                             seen.add(key)
@@ -266,7 +270,8 @@ def run(C, R):
             R.fail('C08.R2', [clear['path'], 'clear-does-not-terminate', str(sorted(npop))],
                    'clear() has no returning path for a %s buffer' % ('non-empty' if 1 not in npop else 'empty'),
                    '%s:%s' % (clear['file'], clear['line']))
-        callers = sorted(set(c for c, _ in CG.callers_of(clear['path']))) if clears_ else [clear['path']]
+        from rl import lift_private_callers
+        callers = lift_private_callers(F, CG, clear['path']) if clears_ else [clear['path']]
         for c in callers:
             cf = F.fn(c)
             if cf and (cf.get('impl_trait') or '').endswith('ops::Drop') and (cf.get('impl_adt') or '').endswith('GenericReceiver'):
